@@ -350,6 +350,31 @@ def rule_laws(ctx):
         ctx.ob('C15.laws', f'{m.name}:{fa}<->{fb}:inverse', ok,
                f'{fb} must undo {fa} step by step; {fa} = {chains[0]}, {fb} = {chains[1]}, expected {fb} = '
                f'{None if chains[0] is None else _merge(_inverse(chains[0]))}', g.node, m)
+    # the modulo: a remainder that is moved into [0, b) afterwards is moved because of *its own* sign (or being non-zero), never because
+    # of the sign of the dividend: a zero remainder of a negative dividend must stay 0
+    md = m.functions.get('mod')
+    ctx.require(md is not None, 'C15.laws', 'mod vanished')
+    rem = set()
+    for x in walk_local(md.node):
+        if isinstance(x, ast.Assign) and isinstance(x.targets[0], ast.Name) and any(
+                (isinstance(y, ast.BinOp) and isinstance(y.op, ast.Mod)) or (isinstance(y, ast.Call) and norm(y.func) in ('math.fmod', 'fmod', 'divmod'))
+                for y in ast.walk(x.value)):
+            rem.add(x.targets[0].id)
+    badfix = []
+    for t in walk_local(md.node):
+        if not isinstance(t, ast.If):
+            continue
+        for x in t.body:
+            tg = None
+            if isinstance(x, ast.Assign) and isinstance(x.targets[0], ast.Name):
+                tg = x.targets[0].id
+            elif isinstance(x, ast.AugAssign) and isinstance(x.target, ast.Name):
+                tg = x.target.id
+            if tg in rem and tg not in U.names_in(t.test):
+                badfix.append(f'if {norm(t.test)}: {norm(x)}')
+    ctx.ob('C15.laws', f'{m.name}:mod:remainder-fixup', bool(rem) and not badfix,
+           f'the remainder {sorted(rem)} is adjusted under a test that does not look at it: {badfix}; for a negative exact multiple '
+           f'(-6 mod 3) the remainder 0 becomes b, outside [0, b)', md.node, m)
     n = 0
     for kn in LAW_KERNELS:
         k = m.functions.get(kn)
@@ -447,6 +472,8 @@ def run(ctx):
 
 
 MUTANTS = [
+    dict(rule='C15.laws', name='integer modulo fixed up by the sign of the dividend (seed C15-f)', file='sc3/base/builtins.py',
+         old="    c = int(math.fmod(a, b))\n    if c < 0: c += b\n    return c", new="    c = abs(a) % abs(b)\n    if a < 0: c = b - c\n    return c"),
     dict(rule='C15.wrap', name='unary wrapper hands the raw kernel to the operand hook (fix reverted)', file='sc3/base/builtins.py',
          old="                return x._compose_unop(scbuiltin_)", new="                return x._compose_unop(func)"),
     dict(rule='C15.hooks', name='list_unop does not recurse into nested rows', file='sc3/base/utils.py',
